@@ -200,8 +200,9 @@ def check_C05(tier):
         real_cases=REAL + extras, gen=40 if tier == "thorough" else 10, nvar=8 if tier == "thorough" else 4,
         gen_kw=dict(allow_leaf=True),
         weak_cases=[("Z17", dict(n=4), "SpawnAllThenWait", "deadlock"), ("Z9", dict(n=1), "SinkOnlyIfDriver+NoWaitAll", "C05_NoEarly"), ("Z9", dict(n=2), "SinkOnlyIfDriver", "deadlock"),
-                    ("Z1", dict(n=2), "CloseBeforeDrain", "C04/C05"), ("Z5c", dict(n=2, m=0), "NoWaitAll", "C05_NoEarly")] +
-                   ([("Z5b", dict(n=4, m=1), "NoDrain", "deadlock")] if tier == "thorough" else []),
+                    ("Z1", dict(n=2), "CloseBeforeDrain", "C04/C05"), ("Z5c", dict(n=2, m=0), "NoWaitAll", "C05_NoEarly"),
+                    ("PC2S", dict(n=2, buf=1), "SinkFileFirst", "deadlock"), ("FC2", dict(n=2, m=2, buf=1), "CombSendSeq", "deadlock")] +
+                   ([("Z5b", dict(n=4, m=1), "NoDrain", "deadlock"), ("Z20", dict(n=4, buf=1), "SeqDrain", "deadlock")] if tier == "thorough" else []),
         rule="as C04; additionally TLC deadlock check and <>(returned or failed) under weak fairness on the small instances; "
              "real runs judged by the in-program snapshot at return, leftovers, commands' own end lines and the Go runtime deadlock report",
         assumptions=["streaming workflows are covered by C17", "hang = Go runtime deadlock report or no exit within 40 s for instances whose commands take < 0.1 s"])
